@@ -49,6 +49,8 @@ class Check(object):
         self.assumptions = []
         self.notes = []
         self.drift = []
+        del CURRENT[:]
+        CURRENT.append(self)
         self.known = [k for k in load_known().get("findings", []) if k.get("property") == pid]
         os.makedirs(os.path.join(OUT, "replay"), exist_ok=True)
         os.makedirs(EVID, exist_ok=True)
@@ -146,13 +148,39 @@ def _match(k, key):
     return False
 
 
+CURRENT = []      # the Check of this run (a driver makes one)
+
+
+def _hang_of_code_under_test(ex):
+    """an exception of the deterministic substrate that says: the code under test hung or never came to rest (as opposed to:
+    the driver itself did something the substrate cannot schedule)"""
+    from harness import sim
+    if not isinstance(ex, (sim.Deadlock, sim.StepLimit)):
+        return False
+    return "unmanaged thread" not in str(ex)
+
+
 def main_wrapper(fn):
     """run a driver's main(); map exceptions to exit code 2 (machinery failure)"""
     try:
         rc = fn()
     except SystemExit:
         raise
-    except BaseException:
+    except BaseException as ex:
+        if CURRENT and _hang_of_code_under_test(ex):
+            # no property here tolerates a call that never returns: reported as a violation of the property being checked, with
+            # the place it was met (the run ends here, so the evidence covers what was explored until then)
+            chk = CURRENT[0]
+            tb = traceback.format_exc()
+            chk.violation("hang", "%s the code under test hung or never came to rest where the check expects a call to return: %s"
+                          % (chk.pid, ex), {"mode": "hang", "traceback": tb[-1500:]})
+            try:
+                rc = chk.finish()
+            except BaseException:
+                traceback.print_exc()
+                rc = 1
+            sys.stdout.flush()
+            os._exit(rc or 1)
         traceback.print_exc()
         print("MACHINERY-FAILURE (exit 2): this is not a claim about rpyc")
         sys.stdout.flush()
